@@ -35,15 +35,24 @@ def detections(txt, owner):
     runs = re.split(r"^== ", txt, flags=re.M)[1:]
     latest, first_owner = {}, None
     log = []
+    quick = {}
     for r in runs:
         head = r.split("\n", 1)[0]
+        tier = "thorough" if "tier thorough" in head else "quick"
         for m in re.finditer(r"^(C\d\d) rc=(\d+)", r, flags=re.M):
             p, rc = m.group(1), int(m.group(2))
-            latest[p] = rc
+            latest[(p, tier)] = rc
+            if tier == "quick":
+                quick[p] = rc
             if p == owner and first_owner is None:
                 first_owner = rc
         log.append(head.strip())
-    return sorted(p for p, rc in latest.items() if rc == 1), sorted(p for p, rc in latest.items() if rc not in (0, 1)), first_owner, log
+    det = sorted(p for p, rc in quick.items() if rc == 1)
+    # a check that fires only in the thorough tier is listed with that qualifier
+    for (p, tier), rc in sorted(latest.items()):
+        if tier == "thorough" and rc == 1 and p not in det:
+            det.append(f"{p}(thorough only)")
+    return det, sorted(p for p, rc in quick.items() if rc not in (0, 1)), first_owner, log
 
 def main():
     for d in sys.argv[1:]:
@@ -70,11 +79,11 @@ def main():
             "confirmed": "tools/confirm_seed.sh in a scratch worktree: patch applies; cargo test --workspace --offline green with it (274 unit + 1 end2end + 13 doctests); demo.rs (as tests/seed_demo_*.rs) fails with it and passes without it",
             "evaluated": "tools/try_seed.sh (scratch worktree with the patch + scratch copy of /verif pointed at it, quick tier, seed 0): " + "; ".join(log),
             "detected_by": det,
-            "owner_check_detects": owner in det,
+            "owner_check_detects": any(d.startswith(owner) for d in det),
             "owner_check_missed_when_first_tried": (first_owner == 0) if first_owner is not None else None,
             "harness_errors": errs,
         }
         json.dump(m, open(f"{out}/meta.json", "w"), indent=1)
-        print(f"{sid}: imported, detected_by={det}" + ("" if owner in det else "  <-- OWNER DOES NOT DETECT"))
+        print(f"{sid}: imported, detected_by={det}" + ("" if any(d.startswith(owner) for d in det) else "  <-- OWNER DOES NOT DETECT"))
 
 main()
